@@ -1,12 +1,13 @@
-"""C15 finding (not fixed): assign_confidence(proteins=...) cannot process a Parquet PSM file.
+"""C15 finding, repaired in /repo by 7b6f120: assign_confidence(proteins=...) could not process a Parquet PSM file.
 
-The intermediate level files take the suffix of the input.  The protein table is written with DataFrame.to_csv to
+The intermediate level files take the suffix of the input.  The protein table was written with DataFrame.to_csv to
 '<dest_dir>/proteins.parquet' and then opened through TabularDataReader.from_path, which picks the Parquet reader
-by suffix: pyarrow raises ArrowInvalid ('Parquet magic bytes not found').  The same PSMs as a tab-delimited PIN
-file give targets.proteins / decoys.proteins; without proteins= the Parquet file is processed, too.
+by suffix: pyarrow raised ArrowInvalid ('Parquet magic bytes not found').  The same PSMs as a tab-delimited PIN
+file gave targets.proteins / decoys.proteins; without proteins= the Parquet file was processed, too.  Since 7b6f120
+the protein table of a Parquet run is written with to_parquet.
 
-Exit status 1 while the defect is present.
-Run: PYTHONPATH=/repo /venv/bin/python repo_fixes/C15-finding-proteins-parquet-input.py"""
+Exit status 1 while the defect is present, 0 on the repaired tree (all four runs write their result files).
+Run: PYTHONPATH=/repo /venv/bin/python repo_fixes/F29-repro-proteins-parquet-input.py"""
 import logging
 import sys
 import tempfile
